@@ -86,7 +86,7 @@ func PathTo(fn *ssa.Function, start ssa.Instruction, target func(ssa.Instruction
 	}
 	seen := map[seenKey]bool{}
 	keyOf := func(b *ssa.BasicBlock, from *ssa.BasicBlock) seenKey {
-		if from != nil && phiBranch(b) != nil {
+		if from != nil && (phiBranch(b) != nil || branchesOnOwnPhi(b)) {
 			for i, p := range b.Preds {
 				if p == from {
 					return seenKey{b, i}
@@ -132,6 +132,18 @@ func PathTo(fn *ssa.Function, start ssa.Instruction, target func(ssa.Instruction
 		only := -1
 		if it.prev != nil && it.from == 0 {
 			only = phiSelectedSucc(it.b, it.prev.b)
+			if only < 0 {
+				idx, cnt := -1, 0
+				for i, p := range it.b.Preds {
+					if p == it.prev.b {
+						idx = i
+						cnt++
+					}
+				}
+				if cnt == 1 {
+					only = selectedSucc(it.b, idx)
+				}
+			}
 		}
 		for si, s := range it.b.Succs {
 			if only >= 0 && si != only {
@@ -428,6 +440,12 @@ func norm(v ssa.Value, depth int, seen map[ssa.Value]bool) string {
 	case *ssa.TypeAssert:
 		return norm(x.X, d, seen) + ".(" + tname(x.AssertedType) + ")"
 	case *ssa.Phi:
+		if r := SimplifyPhi(x); r != nil && !seen[x] {
+			seen[x] = true
+			o := norm(r, d, seen)
+			delete(seen, x)
+			return o
+		}
 		return "φ" + x.Name()
 	case *ssa.MakeClosure:
 		return "closure:" + ShortName(x.Fn.(*ssa.Function))
@@ -470,10 +488,16 @@ func normCall(x *ssa.Call, d int, seen map[ssa.Value]bool) string {
 	}
 	switch f := cc.Value.(type) {
 	case *ssa.Function:
-		if f.Signature.Recv() != nil && len(args) > 0 {
+		// the (alias-aware) known name decides between method and function form, so that a function moved onto a
+		// receiver, or a method turned into a function, prints as the rules know it
+		sn := ShortName(f)
+		if f.Parent() == nil && strings.HasPrefix(sn, "(") && len(args) > 0 {
+			return args[0] + "." + sn[strings.LastIndex(sn, ".")+1:] + "(" + strings.Join(args[1:], ", ") + ")"
+		}
+		if f.Signature.Recv() != nil && len(args) > 0 && strings.HasPrefix(sn, "(") {
 			return args[0] + "." + f.Name() + "(" + strings.Join(args[1:], ", ") + ")"
 		}
-		return ShortName(f) + "(" + strings.Join(args, ", ") + ")"
+		return sn + "(" + strings.Join(args, ", ") + ")"
 	case *ssa.Builtin:
 		return f.Name() + "(" + strings.Join(args, ", ") + ")"
 	}
@@ -984,4 +1008,25 @@ func closureArg(x *ssa.Parameter) ssa.Value {
 		return nil
 	}
 	return site.Common().Args[idx]
+}
+
+// branchesOnOwnPhi: b ends in an If whose condition compares a phi of b with nil.
+func branchesOnOwnPhi(b *ssa.BasicBlock) bool {
+	if len(b.Instrs) == 0 {
+		return false
+	}
+	iff, ok := b.Instrs[len(b.Instrs)-1].(*ssa.If)
+	if !ok {
+		return false
+	}
+	bo, ok := iff.Cond.(*ssa.BinOp)
+	if !ok {
+		return false
+	}
+	for _, v := range []ssa.Value{bo.X, bo.Y} {
+		if p, ok := resolveLoadOnly(v).(*ssa.Phi); ok && p.Block() == b {
+			return true
+		}
+	}
+	return false
 }
